@@ -1,7 +1,7 @@
 SPECIFICATION MCSpec
 CONSTANTS
   MaxCallDepth = 12
-  Family = {1, 3, 4}
+  Family = {1, 3, 4, 5}
   BodyLen = 2
   DevNoParamShare = FALSE
 INVARIANTS SlotsOK FunctionBlocksOK EvalTotal
